@@ -6,6 +6,7 @@ import AdfObdd.PathsDepth
 import AdfObdd.OpsProofs
 import AdfObdd.TTSpec
 import AdfObdd.TTDepthPaths
+import AdfObdd.CountsWord
 /-! # C13 — counts, depth, supports and path cubes of a diagram are exact
 
 Model: `countF` (= `modelcount_naive`: counter-models, models, depth), `pathsF`, `depsF`
@@ -268,3 +269,83 @@ end C13
 
 #print axioms C13.depth_vs_truth_table
 #print axioms C13.paths_vs_truth_table
+
+/-! ## where the unbounded model coincides with the code's 64-bit arithmetic (`CountsWord.lean`)
+
+`countF` counts over unbounded naturals, the code over `usize` (64 bit). Up to 64 levels nothing
+the code computes leaves the machine word, so the two agree; at 65 levels they do not (recorded
+finding D13). `countW` is the counter with every `+`, `*`, `2^·` wrapped and the exponents cast
+to `u32` as in `modelcount_naive` — what a release build computes. -/
+namespace C13
+
+/-- counter-models and models add up to `2^depth`, and a non-terminal diagram has at least one of
+each -/
+theorem counts_sum (s : Store) (w : WF s) (t : Nat) (ht : t < s.nodes.size) :
+    (countF s (t+1) t).1 + (countF s (t+1) t).2.1 = 2 ^ (countF s (t+1) t).2.2 ∧
+    (2 ≤ t → 1 ≤ (countF s (t+1) t).1 ∧ 1 ≤ (countF s (t+1) t).2.1) :=
+  counts_sum_fuel s w.table (t+1) t ht (Nat.lt_succ_self _)
+
+/-- every final count of a diagram with at most 64 levels fits a 64-bit word; the terminals have
+depth 0 and the counts (1, 0) (⊥) and (0, 1) (⊤) -/
+theorem counts_fit_machine_word (s : Store) (w : WF s) (t : Nat) (ht : t < s.nodes.size)
+    (hd : (countF s (t+1) t).2.2 ≤ 64) :
+    (countF s (t+1) t).1 < 2 ^ 64 ∧ (countF s (t+1) t).2.1 < 2 ^ 64 ∧ (countF s (t+1) t).2.2 < 2 ^ 64 ∧
+    (t = 0 → countF s (t+1) t = (1, 0, 0)) ∧ (t = 1 → countF s (t+1) t = (0, 1, 0)) := by
+  have ⟨a, b, c⟩ := counts_fit_word_fuel s w.table (t+1) t ht (Nat.lt_succ_self _) hd
+  exact ⟨a, b, c, fun h => by subst h; exact countF_zero s 0, fun h => by subst h; exact countF_one s 1⟩
+
+/-- at an inner node `t = (var, lo, hi)` of a diagram with at most 64 levels, every value the
+code computes from the children's results — the exponents `lo_exp`, `hi_exp` (`loExp`, `hiExp`:
+the code's branch on `lodepth > hidepth`; equal to `depth - 1 - depth(child)`, `loExp_eq`,
+`hiExp_eq`), the powers `2^lo_exp`, `2^hi_exp`, the four products, the two sums and the new depth
+— is `< 2^64` (`StepFits`), and the sums and the depth are the node's result -/
+theorem count_intermediates_fit (s : Store) (w : WF s) (t : Nat) (n : Node) (ht2 : 2 ≤ t)
+    (hn : s.nodes[t]? = some n) (hd : (countF s (t+1) t).2.2 ≤ 64) :
+    StepFits (countF s (n.lo+1) n.lo).1 (countF s (n.lo+1) n.lo).2.1 (countF s (n.lo+1) n.lo).2.2
+             (countF s (n.hi+1) n.hi).1 (countF s (n.hi+1) n.hi).2.1 (countF s (n.hi+1) n.hi).2.2 ∧
+    countF s (t+1) t =
+      ((countF s (n.lo+1) n.lo).1 * 2 ^ loExp (countF s (n.lo+1) n.lo).2.2 (countF s (n.hi+1) n.hi).2.2 +
+         (countF s (n.hi+1) n.hi).1 * 2 ^ hiExp (countF s (n.lo+1) n.lo).2.2 (countF s (n.hi+1) n.hi).2.2,
+       (countF s (n.lo+1) n.lo).2.1 * 2 ^ loExp (countF s (n.lo+1) n.lo).2.2 (countF s (n.hi+1) n.hi).2.2 +
+         (countF s (n.hi+1) n.hi).2.1 * 2 ^ hiExp (countF s (n.lo+1) n.lo).2.2 (countF s (n.hi+1) n.hi).2.2,
+       max (countF s (n.lo+1) n.lo).2.2 (countF s (n.hi+1) n.hi).2.2 + 1) := by
+  have ⟨_, hlo, hhi, _, _, _⟩ := w.inner t n ht2 hn
+  have F := count_intermediates_fit_fuel s w.table t t n ht2 hn (Nat.lt_succ_self _) hd
+  have el := countF_fuel s w.table n.lo t hlo
+  have eh := countF_fuel s w.table n.hi t hhi
+  rw [el, eh] at F
+  refine ⟨F, ?_⟩
+  rw [countF_node s t t n ht2 hn, el, eh, loExp_eq, hiExp_eq]
+
+/-- hence, by induction over the diagram: on a diagram with at most 64 levels the 64-bit
+evaluation `countW` of the naive counter never wraps and returns the model's numbers -/
+theorem count_word_exact (s : Store) (w : WF s) (t : Nat) (ht : t < s.nodes.size)
+    (hd : (countF s (t+1) t).2.2 ≤ 64) : countW s (t+1) t = countF s (t+1) t :=
+  countW_eq_countF s w.table (t+1) t ht (Nat.lt_succ_self _) hd
+
+/-- the bound 64 is sharp: `conj65` (built with `mkNode`; table `conjNodes 65 65`: node `j+2`
+tests variable `64-j`, false → ⊥, true → node `j+1`) is well formed, its handle 66 denotes the
+conjunction of the variables 0, …, 64, the model counts `2^65 - 1` counter-models, the 64-bit
+evaluation `2^64 - 1` (the value measured on the release build) -/
+theorem counts_overflow_at_65 :
+    WF conj65 ∧ conj65.nodes = conjNodes 65 65 ∧ conj65.nodes.size = 67 ∧
+    (∀ j, j < 65 → conj65.nodes[j+2]? = some ⟨64 - j, 0, j+1⟩) ∧
+    (∀ σ, eval conj65 66 σ = true ↔ ∀ i, i < 65 → σ i = true) ∧
+    countF conj65 67 66 = (2 ^ 65 - 1, 1, 65) ∧
+    countW conj65 67 66 = (2 ^ 64 - 1, 1, 65) ∧
+    countW conj65 67 66 ≠ countF conj65 67 66 := conj65_overflow
+
+/-- … while the conjunction of up to 64 variables is counted exactly by the 64-bit evaluation
+(64 variables: `(2^64 - 1, 1)`); also non-vacuity of `count_word_exact` at the boundary -/
+theorem counts_exact_up_to_64 (n : Nat) (hn : n ≤ 64) :
+    countW (conjChain n n).1 (n+2) (n+1) = (2 ^ n - 1, 1, n) ∧
+    countF (conjChain n n).1 (n+2) (n+1) = (2 ^ n - 1, 1, n) := countW_conj_le64 n hn
+
+end C13
+
+#print axioms C13.counts_sum
+#print axioms C13.counts_fit_machine_word
+#print axioms C13.count_intermediates_fit
+#print axioms C13.count_word_exact
+#print axioms C13.counts_overflow_at_65
+#print axioms C13.counts_exact_up_to_64
